@@ -886,6 +886,34 @@ func (c *c04) receive(h int) {
 		}
 	}
 
+	// What an accessor derives from the content is a function of the content:
+	// an event with the same (redacted) JSON but another identity - its depth
+	// raised by one, hence another event ID where IDs are hashes - must report
+	// the same membership, join rule, history visibility and power levels.
+	// (A copy of the original that differs only in redactable material shares
+	// the original's ID; nothing may be remembered under that ID.)
+	if c.fmtV2 {
+		if tm, terr := parseObject(p.JSON()); terr == nil {
+			if d, ok := tm["depth"].(json.Number); ok {
+				if n, nerr := d.Int64(); nerr == nil {
+					tm["depth"] = num(n + 1)
+					if tb, merr := json.Marshal(tm); merr == nil {
+						if twin, perr := c.ver.NewEventFromTrustedJSON(tb, false); perr == nil && twin.EventID() != p.EventID() {
+							to := observe(twin, c.received)
+							for i, ob := range o {
+								switch ob.name {
+								case "Membership", "JoinRule", "HistoryVisibility", "PowerLevels":
+									c.check(ob.val == to[i].val, "marker_leak", "accessor_remembers:"+ob.name, "%s() of the redacted event is %s, of an event with the same JSON and another identity %s (faults %v)", ob.name, clip(ob.val, 300), clip(to[i].val, 300), c.fired)
+								}
+							}
+							r.Probe("redacted_copy_compared_with_a_twin_of_another_identity")
+						}
+					}
+				}
+			}
+		}
+	}
+
 	// identity and signatures survive when only redactable material changed
 	if hashSame && !c.dupFront {
 		// (with a member given twice it depends on the reader which of the two
